@@ -71,7 +71,6 @@ void harness(void)
 #else
     COVER(!v && rv != RV_OK, "main: rejected document");
 #endif
-    COVER(rv == RV_DEPTH_OBJ, "depth: object nesting obstacle reachable");
 #endif
 
 #if MODE == 2
